@@ -259,6 +259,26 @@ def kernWords (n : Nat) : List (List Char) :=
       go k next (acc ++ next)
   go n [[]] [[]]
 
+/-- all words over `a`, `b`, blank, line break with length <= n, shorter first, then in alphabet order -/
+def kacWords (n : Nat) : List (List Char) :=
+  let alpha := ['a', 'b', ' ', '\n']
+  let rec go : Nat → List (List Char) → List (List Char) → List (List Char)
+    | 0, _, acc => acc
+    | k + 1, level, acc =>
+      let next := level.flatMap (fun w => alpha.map (fun c => w ++ [c]))
+      go k next (acc ++ next)
+  go n [[]] [[]]
+
+def digit36 (i : Nat) : Char := if i < 10 then Char.ofNat (48 + i) else Char.ofNat (87 + i)
+
+/-- result of a start marker search as three characters: offset, marker, pattern length -/
+def showFound (f : Found) : List Char :=
+  match f with
+  | none => ['.', '.', '.']
+  | some (i, m, n) =>
+    [digit36 i, (match m with
+      | .var => 'v' | .block => 'b' | .comment => 'c' | .lineStmt => 's' | .lineComment => 'l'), digit36 n]
+
 def handleSeg (case : String) (fields : List String) (tlk fam segs : String) : String :=
   match parseCfg tlk, parseFam fam, parseItems (if segs = "." then [] else segs.splitOn ";") 0 with
   | some cfg, some d, some items =>
@@ -289,6 +309,13 @@ def handle (line : String) : String :=
         else hay.map (fun h => digit (findChar (n.headD ' ') h))
       s!"{case}\tres={String.ofList res}"
     | none => s!"{case}\tbad-case"
+  | ["kac", fam, maxlen, prehex] =>
+    -- the start marker search the tokenizer uses, on `prefix ++ haystack` from the end of the prefix
+    match parseFam fam, maxlen.toNat?, unhex prehex with
+    | some d, some n, some pre =>
+      let res := (kacWords n).flatMap (fun h => showFound (findStart d pre.reverse h))
+      s!"{case}\tres={String.ofList res}\tll={String.ofList ((kacWords n).flatMap (fun h => showFound (findLL d pre.reverse h)))}"
+    | _, _, _ => s!"{case}\tbad-case"
   | ["entry", tlk, fam, segs] => handleSeg case fields tlk fam segs
   | ["wrap", tlk, fam, _kind, segs] => handleSeg case fields tlk fam segs
   | ["seg", tlk, fam, segs] => handleSeg case fields tlk fam segs
